@@ -122,42 +122,61 @@ def run(ctx: Ctx, tier: str) -> Result:
 
     # ---------------- LOOP
     loops = [n for n in t.nodes_in(matcher, ast.For)]
-    need(len(loops) == 1, "matcher %s: expected exactly one loop" % matcher.qname)
-    lp = loops[0]
-    it_t = t.type_of(lp.iter, matcher)
-    cfg_ok = any(x[0] == "seq" and any(e[0] == "inst" and e[1] == TRIG + ".Trigger" for e in x[1]) for x in it_t)
-    stores = t.field_stores(matcher.cls, lp.iter.attr) if isinstance(lp.iter, ast.Attribute) else []
-    from_listener = any(sf.name == "new_config" for sf, v, _ in stores)
-    if cfg_ok and from_listener and isinstance(lp.iter, ast.Attribute):
-        res.ok("C03.LOOP", {"iterates installed list": norm(lp.iter)})
+    comps = [n for n in t.nodes_in(matcher, ast.ListComp)]
+    if len(loops) == 1:
+        lp = loops[0]
+        it_expr, tv = lp.iter, norm(lp.target)
+        exits = [n for n in ast.walk(lp) if isinstance(n, (ast.Break, ast.Return, ast.Continue))]
+        adds = [n for n in ast.walk(lp) if (isinstance(n, ast.AugAssign) and isinstance(n.op, ast.Add)) or
+                (isinstance(n, ast.Call) and isinstance(n.func, ast.Attribute) and n.func.attr in ("extend", "append"))]
+        adds_ok = bool(adds)
+        for a in adds:
+            val = a.value if isinstance(a, ast.AugAssign) else (a.args[0] if a.args else None)
+            conds = paths.conditions(p, a, matcher)
+            whole = val is not None and norm(val) == tv + ".actions" and not (isinstance(a, ast.Call) and a.func.attr == "append")
+            under_match = any(pol and any(n is at for n in ast.walk(c)) and not isinstance(c, ast.UnaryOp) and
+                              not (isinstance(c, ast.BoolOp) and isinstance(c.op, ast.Or)) for c, pol in conds)
+            only_match = len(conds) == sum(1 for c, pol in conds if any(n is at for n in ast.walk(c)))
+            if not (whole and under_match and only_match):
+                adds_ok = False
+                res.fail(Finding("C03.LOOP", matcher.qname, a, matcher.loc(a),
+                                 "actions are not added as `all actions of the trigger iff it matches` (value %s, conditions %s)" % (
+                                     norm(val) if val is not None else None, [(norm(c), pol) for c, pol in conds])))
+        racc = [n for n in t.nodes_in(matcher, ast.Return)]
+        acc_name = (norm(adds[0].target) if isinstance(adds[0], ast.AugAssign) else norm(adds[0].func.value)) if adds else None
+        ret_ok = len(racc) == 1 and racc[0].value is not None and norm(racc[0].value) == acc_name
+        anchor = lp
+    elif not loops and len(comps) == 1 and len(comps[0].generators) == 2:
+        # [action for trigger in installed if trigger.at_location(...) for action in trigger.actions]
+        cp = comps[0]
+        g0, g1 = cp.generators
+        it_expr, tv = g0.iter, norm(g0.target)
+        exits = []
+        adds_ok = len(g0.ifs) == 1 and g0.ifs[0] is at and not g1.ifs and norm(g1.iter) == tv + ".actions" and norm(cp.elt) == norm(g1.target)
+        if not adds_ok:
+            res.fail(Finding("C03.LOOP", matcher.qname, cp, matcher.loc(cp), "the comprehension does not yield `all actions of every trigger that matches`"))
+        racc = [n for n in t.nodes_in(matcher, ast.Return)]
+        ret_ok = len(racc) == 1 and (racc[0].value is cp or (isinstance(racc[0].value, ast.Name) and any(
+            k == "assign" and b_[1] is cp for k, b_ in t.local_bindings(matcher, racc[0].value.id))))
+        anchor = cp
     else:
-        res.fail(Finding("C03.LOOP", matcher.qname, lp.iter, matcher.loc(lp), "matcher does not iterate the installed trigger list (the one new_config assigns)"))
-    exits = [n for n in ast.walk(lp) if isinstance(n, (ast.Break, ast.Return, ast.Continue))]
+        need(False, "matcher %s: expected one loop (or one two-level comprehension) over the installed triggers" % matcher.qname)
+    it_t = t.type_of(it_expr, matcher)
+    cfg_ok = any(x[0] == "seq" and any(e[0] == "inst" and e[1] == TRIG + ".Trigger" for e in x[1]) for x in it_t)
+    stores = t.field_stores(matcher.cls, it_expr.attr) if isinstance(it_expr, ast.Attribute) else []
+    from_listener = any(sf.name == "new_config" for sf, v, _ in stores)
+    if cfg_ok and from_listener and isinstance(it_expr, ast.Attribute):
+        res.ok("C03.LOOP", {"iterates installed list": norm(it_expr)})
+    else:
+        res.fail(Finding("C03.LOOP", matcher.qname, it_expr, matcher.loc(anchor), "matcher does not iterate the installed trigger list (the one new_config assigns)"))
     if exits:
         res.fail(Finding("C03.LOOP", matcher.qname, exits[0], matcher.loc(exits[0]), "early exit from the matching loop: later triggers on the same location are ignored"))
     else:
         res.ok("C03.LOOP", {"no early exit from matching loop": True})
-    adds = [n for n in ast.walk(lp) if (isinstance(n, ast.AugAssign) and isinstance(n.op, ast.Add)) or
-            (isinstance(n, ast.Call) and isinstance(n.func, ast.Attribute) and n.func.attr in ("extend", "append"))]
-    need(adds, "matcher: no accumulation of actions found")
-    tv = norm(lp.target)
-    for a in adds:
-        val = a.value if isinstance(a, ast.AugAssign) else (a.args[0] if a.args else None)
-        conds = paths.conditions(p, a, matcher)
-        pos = [c for c, pol in conds if pol and c is at or (isinstance(c, ast.Call) and c is at)]
-        whole = val is not None and norm(val) == tv + ".actions" and not (isinstance(a, ast.Call) and a.func.attr == "append")
-        under_match = any(pol and any(n is at for n in ast.walk(c)) and not isinstance(c, ast.UnaryOp) and
-                          not (isinstance(c, ast.BoolOp) and isinstance(c.op, ast.Or)) for c, pol in conds)
-        if whole and under_match and len(conds) == sum(1 for c, pol in conds if any(n is at for n in ast.walk(c))):
-            res.ok("C03.LOOP", {"adds": norm(a), "condition": [norm(c) for c, _ in conds]})
-        else:
-            res.fail(Finding("C03.LOOP", matcher.qname, a, matcher.loc(a),
-                             "actions are not added as `all actions of the trigger iff it matches` (value %s, conditions %s)" % (
-                                 norm(val) if val is not None else None, [(norm(c), pol) for c, pol in conds])))
-    racc = [n for n in t.nodes_in(matcher, ast.Return)]
-    acc_name = norm(adds[0].target) if isinstance(adds[0], ast.AugAssign) else norm(adds[0].func.value)
-    if len(racc) == 1 and racc[0].value is not None and norm(racc[0].value) == acc_name:
-        res.ok("C03.LOOP", {"returns accumulated list": acc_name})
+    if adds_ok:
+        res.ok("C03.LOOP", {"adds": "all actions of every matching trigger"})
+    if ret_ok:
+        res.ok("C03.LOOP", {"returns accumulated list": True})
     else:
         res.fail(Finding("C03.LOOP", matcher.qname, racc[0] if racc else "<return>", matcher.loc(), "matcher does not return the accumulated action list"))
 
